@@ -21,4 +21,24 @@ def indexMask {α} : List α → List Bool → List α
 /-- `np.sum(a)` -/
 def sumQs (xs : List Q) : Q := xs.foldr (· + ·) 0
 
+/-! a pandas Series indexed by item: a list of (item, value) pairs -/
+/-- `s.reindex(items, fill_value=0).values` -/
+def reindex0 (S : List (Nat × Q)) (items : List Nat) : List Q := items.map (fun i => (gainOf S i).getD 0)
+/-- insertion of a pair into a list sorted by decreasing value (stable) -/
+def insPairDesc (x : Nat × Q) : List (Nat × Q) → List (Nat × Q)
+  | [] => [x]
+  | y :: ys => if y.2 < x.2 then x :: y :: ys else y :: insPairDesc x ys
+/-- `s.sort_values(ascending=False)` -/
+def seriesSortDesc : List (Nat × Q) → List (Nat × Q)
+  | [] => []
+  | x :: xs => insPairDesc x (seriesSortDesc xs)
+/-- `s.nlargest(n=k)` -/
+def seriesNLargest (k : Nat) (S : List (Nat × Q)) : List (Nat × Q) := (seriesSortDesc S).take k
+/-- `s.values` -/
+def seriesValues (S : List (Nat × Q)) : List Q := S.map (·.2)
+/-- `np.zeros_like(x)` -/
+def zerosLike {α} (xs : List α) : List Q := xs.map (fun _ => 0)
+/-- `a[mask] = c` -/
+def maskAssign (xs : List Q) (m : List Bool) (c : Q) : List Q := List.zipWith (fun x b => if b then c else x) xs m
+
 end LK.RankOps
